@@ -6,7 +6,7 @@ invariant of the shadow-store monitor. Schedules come from the controlled schedu
 (ii) seeded random multi-preemption schedules over 2-3 threads, (iii) free-running stress.
 """
 
-from __future__ import annotations
+# (no `from __future__ import annotations` here: this module defines annotated functions for the typecheckers)
 
 import random
 import threading
